@@ -13,7 +13,7 @@ import CnfgenModel.Driver.Util
 import CnfgenModel.Fam.Iso
 import CnfgenModel.Fam.Subgraph
 namespace Cnfgen.Driver.FamC02b
-open Cnfgen Cnfgen.Driver Cnfgen.Fam
+open Cnfgen Cnfgen.Driver Cnfgen.Fam.G2
 
 def out (cls : Int) (r : Except Err Formula) : String := fmtExcept (fmtFormula cls) r
 
